@@ -213,6 +213,23 @@ def rule_CP(run: Run) -> RuleResult:
                 if e.kind == "op" and e.opts is not None and e.opts.key() != "options":
                     ok_triple = False
                     d_triple = f"Cached.{op} passes {e.opts.key()[:60]}"
+    # a hit is served from the cache: some path returns the get result under a true exists
+    hit = False
+    for p in npaths:
+        if _run_of(p.ret, "CacheGetRequest"):
+            ex = [c for c in p.conds if "new:CacheExistsRequest" in c[2]]
+            if ex and (ex[0][1] != ex[0][2].startswith("unop:Not(")):
+                hit = True
+    res.add("labrea.cache.Cached.evaluate:a stored value is served without recomputing", hit, f, ln,
+            "exists -> get -> return, no inner evaluation on that path" if hit else "no path returns the retrieved value when the entry exists",
+            "memoization is effective only if a hit returns the stored value without running the body (C02)")
+    for p in npaths:
+        if _run_of(p.ret, "CacheGetRequest") and any(e.kind == "op" and e.op == "evaluate" and not e.failed for e in p.events):
+            res.add("labrea.cache.Cached.evaluate:no inner evaluation on the hit path", False, f, ln, "the inner object is evaluated although the stored value is returned",
+                    "the body must not run on a cache hit (C02)")
+            break
+    else:
+        res.add("labrea.cache.Cached.evaluate:no inner evaluation on the hit path", True, f, ln, "hit paths do not evaluate the inner object", "C02")
     if sets == 0 or gets == 0 or exists == 0:
         raise AnalysisError("Cached.evaluate no longer issues the three cache requests (anchor vanished)")
     res.add("labrea.cache.Cached.evaluate:store-after-compute", ok_store, f, ln, d_store or "CacheSetRequest carries the value of a successful inner evaluate on every path", nec1)
